@@ -169,7 +169,7 @@ def run(ctx):
     ctx.extra["buffer_reuse_walk_calls"] = s3["walk_calls"]
 
     # 4. S: the codec from several goroutines, un-instrumented, under the race detector.
-    ng, rounds = (6, 3) if q else (12, 20)
+    ng, rounds = (8, 40) if q else (12, 200)
     p = ctx.vh(["c04", "stress", ctx.scratch / "stress.res", ng, rounds], race=True, timeout=1800,
                fatal_key="concurrent IPToReversedAddr / IPFromReversedAddr")
     if (ctx.scratch / "stress.res").exists() and p.returncode == 0:
